@@ -2,7 +2,7 @@ INIT Init
 NEXT Next
 CONSTANTS
   Part = "err"
-  L = 4
+  L = 6
   Cut = 6
 INVARIANT LawOutDomain
 INVARIANT LawSame
